@@ -143,9 +143,9 @@ Fixpoint replace_first (pat rep s : string) : string :=
   end.
 Definition get_ref (cf : pconf) (name : string) : string := replace_first "{name}" name (ref_template cf).
 
-(* `name in collectedDefinitions` on a plain object *)
+(* `name in collectedDefinitions`; the table is prototype-less (Object.create(null)) since 24e8d3f, so only stored names are found *)
 Definition has_definition (c : pctx) (name : string) : bool :=
-  mem_str name (keys (collected c)) || mem_str name object_proto_functions || String.eqb name proto_key.
+  mem_str name (keys (collected c)).
 Definition is_in_progress (c : pctx) (name : string) : bool := mem_str name (in_progress c).
 Definition mark_in_progress (c : pctx) (name : string) : pctx :=
   {| collected := collected c; in_progress := if mem_str name (in_progress c) then in_progress c else in_progress c ++ [name] |}.
@@ -260,7 +260,8 @@ Section Schema.
               do uh <- hash32 env f [] r;
               let ensure (c0 : pctx) (name : string) (target : rt) : res pctx :=
                 if has_definition c0 name || is_in_progress c0 name then Ok c0
-                else do b <- sub (mark_in_progress c0 name) target; Ok (store_definition (snd b) name (fst b)) in
+                else let tgt := match assoc name (overrides cf) with Some o => o | None => target end in   (* since dc3325d *)
+                     do b <- sub (mark_in_progress c0 name) tgt; Ok (store_definition (snd b) name (fst b)) in
               do refs <- smap (fun c0 kv =>
                                  match is_ref_node (snd kv) with
                                  | Some name =>
